@@ -253,6 +253,8 @@ where
     const LINE_FEED: u8 = b'\n';
     const CARRIAGE_RETURN: u8 = b'\r';
 
+    let start = dst.len();
+
     let mut r#match = None;
     let mut len = 0;
 
@@ -278,7 +280,7 @@ where
 
     let is_eol = matches!(r#match, Some(LINE_FEED));
 
-    if is_eol && dst.ends_with(&[CARRIAGE_RETURN]) {
+    if is_eol && dst[start..].ends_with(&[CARRIAGE_RETURN]) {
         dst.pop();
     }
 
